@@ -41,6 +41,14 @@ def main(tier, seed):
     # completion pending), and exceptions that cross a module boundary on their way to the handler (whose globals must be its own)
     profcheck.run_scenarios(rep, "switchcontexts", scenarios.fiber_switch_context_scenarios(), bins, PROP)
     profcheck.run_scenarios(rep, "crossmodule", scenarios.cross_module_scenarios(), bins, PROP)
+    # implementation -> specification on the repository's OWN scripts: the control events of all of them (handler pushes / pops,
+    # landings, frame and fiber changes) must be a behaviour TraceVm.tla allows, on both builds
+    items, modules = vlib.corpus()
+    for bname, binary in bins:
+        cs = [{"id": ["corpus", n], "main": s, "modules": modules, "gc": "default"} for n, s, e in items]
+        np_, nev = tracevm.validate(rep, binary, bname, cs, "the repository's scripts", tag="c08corpus")
+        rep.coverage["corpus_traces_validated_by_TraceVm_" + bname] = np_
+        rep.coverage["corpus_events_validated_by_TraceVm_" + bname] = nev
     rep.coverage["exhaustive"] = True
     rep.coverage["rule"] = ("programs nesting try/catch/finally with loops and functions, explicit throws, failing built-in operations and throws "
                             "from callees, every exit path from every block; the reference machine delivers completions structurally (innermost "
